@@ -1,15 +1,20 @@
-(* Correspondence definitions for C25: evaluate the arithmetic model on the cases the engine ran. *)
+(* Correspondence definitions for C25: evaluate the arithmetic models on the cases the engine ran. *)
 From Coq Require Import List NArith ZArith Bool.
 Import ListNotations.
-From GMS Require Import Codec.C25Arith.
+From GMS Require Import Codec.C25Arith Codec.C25Nested.
 
-(* operator, child-is-literal (unary minus), declared scale of the left operand's type (division),
-   evaluated left and right operands (as the engine's projection returned them), observed result *)
-Definition case : Type := (op * bool * Z * operand * operand * result)%type.
+Inductive case :=
+(* one operator: operator, child-is-literal (unary minus), declared scale of the left operand's type (division),
+   evaluated operands (as the engine's projection returned them), observed result *)
+| FlatCase (o : op) (lit : bool) (ldecl : Z) (l r : operand) (out : result)
+(* an expression tree with its leaves' evaluated operands, observed result *)
+| TreeCase (e : expr) (out : result).
 
 Definition ok (c : case) : bool :=
-  let '(o, lit, ldecl, l, r, out) := c in
-  result_eqb (eval o lit ldecl l r) out.
+  match c with
+  | FlatCase o lit ldecl l r out => result_eqb (eval o lit ldecl l r) out
+  | TreeCase e out => result_eqb (neval e) out
+  end.
 
 Definition mismatches (cs : list (N * case)) : list N :=
   map fst (filter (fun p => negb (ok (snd p))) cs).
